@@ -194,6 +194,9 @@ def match_unit(world, unit, o, obs):
     pre-layout address (judged by C10)."""
     res, err = _match_unit(world, unit, o, obs, True)
     if res is None:
+        # ... still preferring padding that is a block of its own
+        res, err = _match_unit(world, unit, o, obs, "own-block")
+    if res is None:
         res, err = _match_unit(world, unit, o, obs, False)
     return res, err
 
@@ -279,6 +282,8 @@ def _pad_ok(world, o, obs, r, p, final=False, strict=True):
         # the library covers padding with a fresh block of its own (which
         # carries no alignment requirement itself)
         return False
+    if strict == "own-block":
+        strict = False
     if final:
         # padding at the very end of an interval: uninitialized bytes that
         # were made explicit; nothing follows inside this interval
